@@ -121,7 +121,11 @@ func main() {
 		go worker(jobs, out)
 	}
 	// 结果工作器
-	go filepath.Walk(inputPath, func(p string, _ os.FileInfo, _ error) error {
+	go filepath.Walk(inputPath, func(p string, fInfo os.FileInfo, _ error) error {
+		if fInfo == nil || fInfo.IsDir() {
+			// 与 toBeTestFileNum 保持一致：目录不是样本（即使目录名以 .bin/.dat 结尾）
+			return nil
+		}
 		if strings.HasSuffix(p, ".bin") || strings.HasSuffix(p, ".dat") {
 			jobs <- p
 		}
